@@ -726,7 +726,10 @@ pub fn run(scn: &Scenario) -> RunResult {
         joins.push(j);
     }
     run.sched.start(0);
-    let ok = run.sched.wait_all(std::time::Duration::from_secs(30));
+    // watchdog (wall clock, a safety net only: a deadlock among simulated threads is detected by the
+    // scheduler itself). Generous, so that a loaded machine does not turn a slow run into a harness
+    // error; far more under the interpreter, where one scenario can take tens of seconds
+    let ok = run.sched.wait_all(std::time::Duration::from_secs(if cfg!(miri) { 600 } else { 90 }));
     if ok {
         for j in joins {
             let _ = j.join();
